@@ -213,6 +213,32 @@ SEEDS = {
         strengthened="first detection was accidental (AttributeError: the stub PulserData lacked has_lindblad_noise). The stub now carries every attribute the constructor sets and the case forks over Lindblad noise, so the counting clause fails",
     ),
     # ---- second round: a different change for properties with a large surface --------------------
+    "C01b": dict(
+        property="C01",
+        change="SVBackendImpl._compute_dt returns min(config.dt, time left) instead of the length of the target-time interval",
+        needs="an evaluation time off the dt grid (a target-time interval shorter than config.dt that is not the last one)",
+        detected_by={"C01": "sv_n1_steps2: step 0: exponentiated operator = -i*dt*1e-3*H_Pulser(step 0)"},
+        strengthened="first detection was accidental (AttributeError: the stub SVConfig had no `dt`). All emu-sv harnesses now share a stub config carrying every SVConfig option, with a dt unrelated to the symbolic grid, so the step-operator clause fails",
+    ),
+    "C19b": dict(
+        property="C19",
+        change="get_next_abscissa guards the inverse-quadratic branch with fa != 0 and fb != 0 (a numerator) instead of fc != 0 (a divisor)",
+        needs="a queried point with ordinate exactly 0 that is not a sign change, followed by a point replacing b; |fa|,|fb| >= epsilon",
+        detected_by={"C19": "zero_ordinate_unroll_eps1: no ZeroDivisionError in get_next_abscissa: a divisor is zero on a reachable state"},
+    ),
+    "C26b": dict(
+        property="C26",
+        change="MPSBackend.resume no longer sets impl.autosave_file to the path it was given: the solver keeps the path stored in the snapshot",
+        needs="the autosave file was moved/renamed (or copied) before resuming",
+        detected_by={"C26": "resume_equals_uninterrupted_n2: the autosave file is removed when the resumed run finishes (moved-file fork added)"},
+        strengthened="MISSED at first: the snapshot's stored path always equalled the path passed to resume. The case now forks over 'file moved before resuming' and also demands that nothing is written at the old location",
+    ),
+    "C27b": dict(
+        property="C27",
+        change="save_simulation calls os.replace inside the `with open(.new)` block, i.e. before the .new file is closed/flushed",
+        needs="a hard crash between the rename and the close, with a final write smaller than the file buffer",
+        detected_by={"C27": "later_autosave_crash: completed autosave: the advertised file holds the new snapshot / is a complete snapshot"},
+    ),
     "C02b": dict(
         property="C02",
         change="timestep_complete rebuilds the Hamiltonian with make_H from the PREVIOUS interaction matrix (assignment moved after make_H)",
